@@ -82,22 +82,22 @@ Proof. vm_compute. repeat split. Qed.
    Domains have millisecond resolution (the property's quantifier).
 
    PROVED for all domains and counts: tnice_outward, tnice_orientation,
-   tnice_aligned, tnice_skip_fuel.
-   NOT PROVED (planned in DESIGN.md as tnice_lt_two_ticks, partial there too):
-     ts_nice d0 d1 m = Ok (n0, n1) -> each end moves by less than two tick steps
-     of the ORIGINAL domain's ticks:  lo - lo' < 2 * g  /\  hi' - hi < 2 * g
-     where g is the largest gap between consecutive elements of ts_ticks d0 d1 m.
-   What is missing: the relation between the skip and the tick gap per row of
-   the method table (for day/month/year rows with month/year lengths).  The
-   property oracle of harness/props/c14t.py checks it on every generated case.
-   Totality (no Raise in years 2..9997 minus the skip reach) is not stated here
-   either; Raise only arises when an end would leave years 1..9999. *)
+   tnice_aligned, tnice_skip_fuel, and (Time/NiceBoundProofs.v) tnice_lt_two_ticks
+   for EVERY row of the method table (fixed-length units, two-day ticks, months,
+   quarters, k-year steps, both fall-backs): there is a g > 0 with every gap of
+   the ORIGINAL domain's ticks in [g, 2 g] and each end moving outward by less
+   than 2 g - less than two tick steps even counted in the smallest step.
+   (nice_floor returns the greatest point of the row's tick set below the end,
+   nice_ceil the least one above it; every window of length gmax <= 2 g holds
+   a point of the tick set.)
+   Totality (no Raise in years 2..9997 minus the skip reach) is not stated here;
+   Raise only arises when an end would leave years 1..9999. *)
 From Coq Require ZArith QArith List Bool.
-From Labella Require Time.Calendar Time.Interval Time.IntervalSpec Time.TimeScale Time.TimeTicks Time.TimeNice Time.TimeNiceProofs.
+From Labella Require Time.Calendar Time.Interval Time.IntervalSpec Time.TimeScale Time.TimeTicks Time.TimeNice Time.TimeNiceProofs Time.NiceBoundProofs.
 Module TimePart.
 Import ZArith QArith List Bool.
-Import Time.Calendar Time.Interval Time.IntervalSpec Time.TimeScale Time.TimeTicks Time.TimeNice Time.TimeNiceProofs.
-Import ListNotations.
+Import Time.Calendar Time.Interval Time.IntervalSpec Time.TimeScale Time.TimeTicks Time.TimeNice Time.TimeNiceProofs Time.NiceBoundProofs.
+Import ListNotations Sorted.
 Open Scope Z_scope.
 (* tnice_outward + tnice_aligned: the smaller end only moves down, the larger end
    only moves up, each stays in its own position of the pair, both are aligned *)
@@ -141,6 +141,21 @@ Theorem C14T_number_succ : forall u x x', u <> UWeek -> valid x -> valid x' ->
   iv_number (interval_of u) x' = 0.
 Proof. exact number_succ. Qed.
 Print Assumptions C14T_number_succ.
+
+(* tnice_lt_two_ticks: each end moves outward by less than two tick steps of the
+   ORIGINAL domain's ticks: all gaps of ts_ticks d0 d1 m lie in [g, 2 g] and each
+   end moves by less than 2 g *)
+Theorem C14T_tnice_lt_two_ticks : forall d0 d1 m n0 n1,
+  valid d0 -> valid d1 -> ms_resolution d0 -> ms_resolution d1 ->
+  ts_nice d0 d1 m = Ok (n0, n1) ->
+  exists g, 0 < g /\
+    (forall l, ts_ticks d0 d1 m = Ok l ->
+       Sorted (fun x y => g <= to_us y - to_us x <= 2 * g) l) /\
+    (if to_us d1 <? to_us d0
+     then to_us d1 - to_us n1 < 2 * g /\ to_us n0 - to_us d0 < 2 * g
+     else to_us d0 - to_us n0 < 2 * g /\ to_us n1 - to_us d1 < 2 * g).
+Proof. exact tnice_lt_two_ticks. Qed.
+Print Assumptions C14T_tnice_lt_two_ticks.
 
 (* ---------- non-vacuity ---------------------------------------------------------- *)
 (* A.7: nice(42) on [2068-03-15, 2068-05-30]: two-day ticks -> [2068-03-15, 2068-05-31];
